@@ -347,7 +347,11 @@ func (r *Run) replay(it *OblResult, dir string, base string) (*ReplayOutcome, bo
 		return nil, false
 	}
 	terms := r.p.replayTerms(it.Obl)
-	q := "(set-option :produce-models true)\n(set-logic ALL)\n" + it.Enc.Query(it.Obl) + "(get-value (" + strings.Join(terms, " ") + "))\n"
+	sub := *it.Obl
+	if it.Res.FailedConjunct != "" {
+		sub.Cond = T{it.Res.FailedConjunct, SBool}
+	}
+	q := "(set-option :produce-models true)\n(set-logic ALL)\n" + it.Enc.Query(&sub) + "(get-value (" + strings.Join(terms, " ") + "))\n"
 	qf := filepath.Join(r.scratch, base+"_gv.smt2")
 	os.WriteFile(qf, []byte(q), 0o644)
 	res := runSolver(context.Background(), solvers[0], qf, 10, r.seed)
